@@ -1,9 +1,103 @@
-(** * C08 — crash consistency of the replica directory (provisional: being extended) *)
+(** * C08 — the replica directory is crash-consistent at every instant.
+
+    Model: Meta (coq/theories/Meta/Model.v).  An operation is a finite tree of file-system calls;
+    [exec p w cnt crash_at fail_at] runs it from directory [w]; process death = the call numbered
+    [crash_at] is never entered; an injected failure = the call numbered [fail_at] is not performed and
+    returns the errno.  [recover g w] is what a restarted process reads from [w]; [veq] compares two
+    recovered views on everything recovery itself does not rewrite: chain names, inode of every member,
+    Parent / Removed / UserCreated / Created of every member, and Size / Head / Rebuilding / Parent /
+    Checkpoint / RevisionCounter of volume.meta (not: Dirty, and the per-disk RevisionCounter, which
+    readDiskData brings up to date on every open).  Because an image's content is a function of its
+    inode, and no call of an operation writes into an inode of either chain (only the data write of
+    [OWrite] does, into the head), "same inode" is "every acknowledged byte and every retained
+    snapshot reads back unchanged".
+
+    Quantifier: every state reachable by a history (C12_reachable_invariant: [InvS]), every operation
+    [o] (open, close, write, snapshot, remove, mark-removed, revert, resize, set-checkpoint,
+    set-rebuilding, set-mode) with every argument for which the code as it is behaves ([ok_op]: all of
+    them once the argument repairs are in, see C12), every k. *)
 From Coq Require Import List ZArith NArith Bool Arith.
 From Jiva Require Import Meta.Model Meta.Corr Meta.Proofs.
 Import ListNotations.
 
+(** the directory left by process death after k calls is the k-th directory of the fault-free run *)
 Theorem C08_crash_prefix : forall A (p : prog A) w cnt k,
   dir_of_run (exec p w cnt (Some (cnt + k)) None) = nth k (states p w) (last (states p w) w).
 Proof. exact crash_prefix. Qed.
 Print Assumptions C08_crash_prefix.
+
+(** ... and it can be reopened, to the chain before or the chain after the interrupted operation *)
+Theorem C08_crash_atomic : forall g s o k,
+  cfg_ok g -> InvS g s -> plain o -> ok_op g s o ->
+  exists vpre vpost vk,
+    recover g (s_fs s) = Some vpre
+    /\ recover g (s_fs (fst (fst (step g s o)))) = Some vpost
+    /\ recover g (dir_of_run (exec (op_prog g (s_mem s) o) (s_fs s) 0 (Some k) None)) = Some vk
+    /\ (veq vk vpre \/ veq vk vpost).
+Proof. exact crash_atomic. Qed.
+Print Assumptions C08_crash_atomic.
+
+(** the same over histories: any history (with process deaths inside operations), then one more
+    operation interrupted anywhere *)
+Theorem C08_crash_atomic_reachable : forall g size now os o k,
+  cfg_ok g -> size <> 0%N -> ok_hist g (created g size now) os ->
+  let s := run_ops g (created g size now) os in
+  plain o -> ok_op g s o ->
+  exists vpre vpost vk,
+    recover g (s_fs s) = Some vpre
+    /\ recover g (s_fs (fst (fst (step g s o)))) = Some vpost
+    /\ recover g (dir_of_run (exec (op_prog g (s_mem s) o) (s_fs s) 0 (Some k) None)) = Some vk
+    /\ (veq vk vpre \/ veq vk vpost).
+Proof. intros g size now os o k H1 H2 H3 s H4 H5. apply crash_atomic; try assumption. apply C12_wf_thm; assumption. Qed.
+Print Assumptions C08_crash_atomic_reachable.
+
+(** once an operation (any but the initial creation) has returned success, every rename / link /
+    unlink / creating open it made is followed by a sync of the directory: the lint [durable_codes]
+    of Corr.v holds on the canonical system-call trace of the fault-free run.  No invariant needed. *)
+Theorem C08_durable : forall g s o w' om' k,
+  plain o -> (forall sz nw, o <> OCreate sz nw) ->
+  ff (op_prog g (s_mem s) o) (s_fs s) = (w', Done (om', Ok, k)) ->
+  durable_codes (map snd (sys_trace 0 (trace_of_run (run (op_prog g (s_mem s) o) (s_fs s))))) = true.
+Proof. exact durable. Qed.
+Print Assumptions C08_durable.
+
+(** FULL STATEMENT (C08_fault_atomic): for every invariant state, every operation, every k and errno,
+    with [r := exec (op_prog g (s_mem s) o) (s_fs s) 0 None (Some (k, e))]: [dir_of_run r] recovers to
+    the new view when r returns success, and to the old or the new view otherwise.
+    FALSE for the code as it is: *)
+Theorem C08_fault_refuted :
+  InvS (cfg_asis 8) wit_state /\ ok_op (cfg_asis 8) wit_state (OSnap 1 false 1)
+  (* ENOSPC on write(volume.meta.tmp) in a snapshot: success is returned, nothing can be recovered *)
+  /\ fault_outcome (cfg_asis 8) wit_state (OSnap 1 false 1) 23 ENOSPC = (COk, false)
+  (* the same in SetCheckpoint *)
+  /\ fault_outcome (cfg_asis 8) wit_state (OCheckpoint (Some (Snap 1))) 1 ENOSPC = (COk, false).
+Proof. exact fault_refuted_write_ignored. Qed.
+Print Assumptions C08_fault_refuted.
+
+(** ... and still false for Snapshot when encodeToFile tests the write error: EIO on the directory
+    sync that follows rename(volume.meta.tmp, volume.meta) *)
+Theorem C08_fault_refuted_sync_after_commit :
+  fault_outcome (cfg_asis 8) wit_state (OSnap 1 false 1) 26 EIO = (CErr, false)
+  /\ fault_outcome (mkcfg 8 true true false false false)
+       (run_ops (mkcfg 8 true true false false false) (created (mkcfg 8 true true false false false) 16384 7) [OOpen; OSetMode (Some RW)])
+       (OSnap 1 false 1) 26 EIO = (CErr, false).
+Proof. exact fault_refuted_sync_after_commit. Qed.
+Print Assumptions C08_fault_refuted_sync_after_commit.
+
+(** PROVED PART: with the write error tested ([fixed g = true]), every program of the shape "rewrite
+    volume.meta, return" ([fault_atomic_vol] in Proofs.v), instantiated for SetCheckpoint: whatever
+    call fails, the directory recovers to exactly the old or the new view, and to the new one when
+    success is returned.  MISSING: snapshot / remove / revert / resize / mark-removed / open / close /
+    set-rebuilding under a failing call are not proved in general (snapshot is false until the second
+    repair, see above); they are covered by the victim runs of the check (every call of every
+    operation fails once) against the model's [exec] with [fail_at]. *)
+Theorem C08_fault_atomic_partial : forall g w m c k e,
+  fixed g = true -> InvS g (mkst w (Some m)) ->
+  let p := op_prog g (Some m) (OCheckpoint c) in
+  let r := exec p w 0 None (Some (k, e)) in
+  exists vpre vpost vk,
+    recover g w = Some vpre /\ recover g (fst (ff p w)) = Some vpost
+    /\ recover g (dir_of_run r) = Some vk /\ (vk = vpre \/ vk = vpost)
+    /\ (out_class (out_of_run r) = COk -> vk = vpost).
+Proof. exact fault_atomic_checkpoint. Qed.
+Print Assumptions C08_fault_atomic_partial.
